@@ -180,12 +180,14 @@ package font
 //@ func (*CMap) parseBfRangeSectionWithArrays results (err)
 //@   property C07, C02
 //@   flags nosafety
+// linear work while an array stays open: each step searches only the piece it has just appended for the bracket
+//@   callsite strings.Contains#3(s, t) requires searches_only_the_new_piece: same(s, next)
 //@   loop 0:
 //@     invariant 0 <= i
 //@     decreases len(lines) - i
 //@   loop 1:
 //@     invariant 0 <= i && i < len(lines) && i >= entry(i)
-//@     step joins_only_while_the_array_is_open: !strings.Contains(prev(fullLine), "]") && i == prev(i) + 1
+//@     step joins_only_while_the_array_is_open: !prev(closed) && i == prev(i) + 1 && closed == strings.Contains(next, "]")
 //@     decreases len(lines) - i
 //@   loop 2:
 //@     invariant 0 <= startIdx && startIdx <= len(line)
